@@ -9,6 +9,7 @@ theorem verdict : (classify Generated.factsC02).Sound (Holds (cfgOf Generated.fa
 #eval IO.println (verdictLine "C02" (classify Generated.factsC02))
 #print axioms verdict
 #print axioms recover_total_prefix
+#print axioms recover_maximal
 #print axioms append_after_recovery
 #print axioms holds_of_repaired
 #print axioms torn_block_load_error
@@ -16,11 +17,11 @@ theorem verdict : (classify Generated.factsC02).Sound (Holds (cfgOf Generated.fa
 #print axioms torn_create_bricks
 #print axioms append_after_torn_tail_strands
 #print axioms C02_partial
-#print axioms Hv.Storage.run_inv
-#print axioms Hv.Storage.session_image
-#print axioms Hv.Storage.sessionDurable_is_synced_file
-#print axioms Hv.Storage.loadFile_prefix_good
-#print axioms Hv.Storage.loadEntries_strands
-#print axioms Hv.Storage.lossyImageAt_checkpoint
+#print axioms Hv.BlockStore.run_inv
+#print axioms Hv.BlockStore.session_image
+#print axioms Hv.BlockStore.sessionDurable_is_synced_file
+#print axioms Hv.BlockStore.loadFile_prefix_good
+#print axioms Hv.BlockStore.loadEntries_strands
+#print axioms Hv.BlockStore.lossyImageAt_checkpoint
 
 end Hv.C02
